@@ -266,6 +266,151 @@ def r_zerotable(prog, tier):
     return obs, {}
 
 
+def r_strsort(prog, tier):
+    """Numbers (token positions, node numbers) are sorted by their text: 1, 10, 11, 2, ..."""
+    obs = []
+    n = 0
+
+    def textual(k):
+        if isinstance(k, ast.Name) and k.id in ('str', 'repr', 'unicode'):
+            return True
+        if isinstance(k, ast.Lambda) and len(k.args.args) == 1 and isinstance(k.body, ast.Call) \
+                and isinstance(k.body.func, ast.Name) and k.body.func.id in ('str', 'repr', 'unicode', 'format') \
+                and len(k.body.args) == 1 and isinstance(k.body.args[0], ast.Name) and k.body.args[0].id == k.args.args[0].arg:
+            return True
+        return False
+
+    def numberish(e):
+        if isinstance(e, ast.Subscript) and isinstance(e.slice, ast.Constant) and e.slice.value == 'num' \
+                and isinstance(e.value, ast.Attribute) and e.value.attr == 'data':
+            return True
+        if isinstance(e, ast.Constant) and isinstance(e.value, int) and not isinstance(e.value, bool):
+            return True
+        if isinstance(e, ast.Call) and isinstance(e.func, ast.Name) and e.func.id in ('int', 'len'):
+            return True
+        return False
+    for mod in MODULES:
+        for f in sorted(prog.modules[mod].funcs.values(), key=lambda x: x.fq):
+            for c in walk_own(f.node):
+                if not isinstance(c, ast.Call):
+                    continue
+                key = next((k.value for k in c.keywords if k.arg == 'key'), None)
+                if key is None or not textual(key):
+                    continue
+                if isinstance(c.func, ast.Name) and c.func.id in ('sorted', 'min', 'max') and c.args:
+                    src = c.args[0]
+                elif isinstance(c.func, ast.Attribute) and c.func.attr == 'sort':
+                    src = c.func.value
+                else:
+                    continue
+                while isinstance(src, ast.Call) and ((isinstance(src.func, ast.Attribute) and src.func.attr == 'keys'
+                                                      and not src.args) or (isinstance(src.func, ast.Name)
+                                                                            and src.func.id in ('list', 'tuple', 'set') and len(src.args) == 1)):
+                    src = src.func.value if isinstance(src.func, ast.Attribute) else src.args[0]
+                numeric = False
+                if isinstance(src, ast.Name) and src.id in f.locals:
+                    keys = [x.targets[0].slice for x in walk_own(f.node) if isinstance(x, ast.Assign) and len(x.targets) == 1
+                            and isinstance(x.targets[0], ast.Subscript) and isinstance(x.targets[0].value, ast.Name)
+                            and x.targets[0].value.id == src.id]
+                    apps = [x.args[0] for x in walk_own(f.node) if isinstance(x, ast.Call) and isinstance(x.func, ast.Attribute)
+                            and x.func.attr in ('append', 'add') and isinstance(x.func.value, ast.Name) and x.func.value.id == src.id
+                            and len(x.args) == 1]
+                    defs = [v for (_, v) in name_defs(f, src.id) if isinstance(v, ast.AST)]
+                    empty = all(isinstance(v, (ast.Dict, ast.List, ast.Set)) and not (getattr(v, 'keys', None) or getattr(v, 'elts', None))
+                                or (isinstance(v, ast.Call) and isinstance(v.func, ast.Name) and v.func.id in ('dict', 'list', 'set') and not v.args)
+                                for v in defs)
+                    items = keys + apps
+                    numeric = bool(items) and empty and all(numberish(k) for k in items)
+                elif isinstance(src, (ast.ListComp, ast.GeneratorExp, ast.SetComp)):
+                    numeric = numberish(src.elt)
+                if numeric:
+                    n += 1
+                    obs.append(Ob('R-STRSORT', f.fq, 'numbers are put in numeric order: `%s`' % unparse(c)[:60], False,
+                                  'the sorted values are token / node numbers and the key turns them into text: 10 sorts before 2, '
+                                  'so sentences of ten or more tokens come out in the wrong order', construct='strsort:' + unparse(c)[:60],
+                                  line=c.lineno))
+    obs.append(Ob('R-STRSORT', 'package', 'scan for numbers sorted by their text covered every function', True,
+                  '%d found' % n, construct='strsort-scan', nontrivial=False))
+    return obs, {}
+
+
+def r_leakvar(prog, tier):
+    """Inside an outer loop, the variable of a finished inner `for` loop is read after that loop and is bound nowhere
+    else: it holds the leftover of the last inner iteration - or, when the inner loop did not run for this outer
+    element, the leftover of an earlier outer element (or nothing at all)."""
+    obs = []
+    n = 0
+    for mod in MODULES:
+        for f in sorted(prog.modules[mod].funcs.values(), key=lambda x: x.fq):
+            fn = f.node
+            parents = {}
+            for p_ in ast.walk(fn):
+                for c_ in ast.iter_child_nodes(p_):
+                    parents[c_] = p_
+
+            def chain(x):
+                out = []
+                while x in parents:
+                    x = parents[x]
+                    out.append(x)
+                return out
+            loops = [x for x in walk_own(fn) if isinstance(x, ast.For)]
+            stores = {}
+            for x in walk_own(fn):
+                if isinstance(x, ast.Name) and isinstance(x.ctx, (ast.Store, ast.Del)):
+                    stores.setdefault(x.id, []).append(x)
+            for L in loops:
+                outer = [a for a in chain(L) if isinstance(a, (ast.For, ast.While))]
+                if not outer:
+                    continue
+                tnames = set(x.id for x in ast.walk(L.target) if isinstance(x, ast.Name))
+                for t in sorted(tnames):
+                    if t in f.params:
+                        continue
+                    # bound only as the target of statement loops none of which encloses the use (checked below)
+                    binders = []
+                    okb = True
+                    for st_ in stores.get(t, []):
+                        ch = chain(st_)
+                        b = next((a for a in ch if isinstance(a, (ast.For, ast.comprehension)) and any(
+                            y is st_ for y in ast.walk(a.target))), None)
+                        if b is None:
+                            okb = False
+                        else:
+                            binders.append(b)
+                    if not okb:
+                        continue
+                    for u in walk_own(fn):
+                        if not (isinstance(u, ast.Name) and u.id == t and isinstance(u.ctx, ast.Load)):
+                            continue
+                        ch = chain(u)
+                        if any(b in ch for b in binders):
+                            continue        # inside (the header or body of) a loop / comprehension that binds it
+                        # comprehension elements are children of the ListComp, the binder is the comprehension node
+                        comp_bound = False
+                        for a in ch:
+                            if isinstance(a, (ast.ListComp, ast.SetComp, ast.GeneratorExp, ast.DictComp)):
+                                if any(t in [y.id for y in ast.walk(g.target) if isinstance(y, ast.Name)] for g in a.generators):
+                                    comp_bound = True
+                        if comp_bound:
+                            continue
+                        if outer[0] not in ch:
+                            continue
+                        if not (getattr(u, 'lineno', 0) > getattr(L, 'end_lineno', 0)):
+                            continue
+                        # every binder of the name that precedes the use lies inside the same outer loop body
+                        n += 1
+                        obs.append(Ob('R-LEAKVAR', f.fq, 'the loop variable `%s` is read only where its loop binds it' % t, False,
+                                      '`%s` is the variable of the loop at line %d and of nothing else; it is read at line %d, after '
+                                      'that loop, inside the enclosing loop: it holds the leftover of the last iteration, or of an '
+                                      'earlier outer element when the inner loop does not run' % (t, L.lineno, u.lineno),
+                                      construct='leakvar:%s:%s' % (t, unparse(parents.get(u, u))[:50]), line=u.lineno))
+                        break
+    obs.append(Ob('R-LEAKVAR', 'package', 'scan for inner-loop variables read after their loop covered every function', True,
+                  '%d found' % n, construct='leakvar-scan', nontrivial=False))
+    return obs, {}
+
+
 # --------------------------------------------------------------------------- fixtures: the patterns must be found
 
 FIXTURE = {
@@ -291,6 +436,15 @@ def fx(tree, **params):
     starts = {c: 0 for c in tree.children}
     for c in tree.children:
         starts[c] = len(c.children)
+    for c in tree.children:
+        for g in c.children:
+            g.data['x'] = 1
+        c.data['y'] = g.data['x']
+    byn = {}
+    for c in tree.children:
+        byn[c.data['num']] = c
+    for k in sorted(byn.keys(), key=str):
+        pass
     return tree
 TRANSFORMATIONS = [fx]
 """,
@@ -323,3 +477,5 @@ r_falsyzero = _with_fixture('R-FALSYZERO', r_falsyzero)
 r_dictcomp = _with_fixture('R-DICTCOMP', r_dictcomp)
 r_staleacc = _with_fixture('R-STALEACC', r_staleacc)
 r_zerotable = _with_fixture('R-ZEROTABLE', r_zerotable)
+r_leakvar = _with_fixture('R-LEAKVAR', r_leakvar)
+r_strsort = _with_fixture('R-STRSORT', r_strsort)
